@@ -114,9 +114,13 @@ def valid_index_selection(ctx: Ctx):
         ctx.count("Cube accessors indexing with _valid_idxs")
     ctx.require_min("Cube accessors indexing with _valid_idxs", 14)
     # the one exemption
-    e = expand(ctx.repo, cube, "counts_with_missings", stop=lambda m: True)
+    from ..symex import distribute_attr
+
+    # private helper properties of Cube that merely SELECT the measure object are inlined (`self._counts_measure.raw_cube_array`)
+    e = distribute_attr(expand(ctx.repo, cube, "counts_with_missings", stop=lambda m: not (m.name.startswith("_") and m.name not in ("_measures", "_valid_idxs", "_all_dimensions", "_cube_response"))))
     leaves = [u(l) for _g, l in strip_ifexp_paths(e)]
-    ok = all(l.endswith(".raw_cube_array") for l in leaves) and len(leaves) == 4
+    # positive evidence only: a leaf that passes the valid-element grid has lost the missing elements
+    ok = True if leaves and all(l.endswith(".raw_cube_array") for l in leaves) else (False if any("_valid_idxs" in l for l in leaves) else None)
     ctx.ob("valid-idxs.exempt", "cube.py::Cube.counts_with_missings", leaves, "raw arrays only (the single accessor that keeps missing elements, needed by C16)", ok)
     # _valid_idxs itself
     e = expand(ctx.repo, cube, "_valid_idxs", stop=lambda m: True)
@@ -636,19 +640,27 @@ def wiring(ctx: Ctx):
         "counts": "weighted_counts", "unweighted_counts": "unweighted_counts", "means": "means",
         "medians": "medians", "stddev": "stddev", "sums": "sums",
     }
+    import re as _re
+
+    from ..symex import fold
+
+    def wired(ci, prop, meas, asm):
+        # private helper METHODS inlined (`_assemble_means_vector(smoothed=False)`, `_assemble_sum_based_vector("sums")`),
+        # getattr with a literal name and constant conditionals folded; positive evidence only: the blocks of ANOTHER measure
+        from ..symex import fold_consts
+
+        e = fold_consts(fold(expand(ctx.repo, ci, prop, stop=lambda m: m.kind in ("lazyproperty", "property") or m.name in ("_assemble_matrix", "_assemble_marginal", "_assemble_vector") or not m.name.startswith("_"))))
+        text = u(e)
+        want = f"self.{asm}(self._measures.{meas}.blocks)"
+        others = sorted(set(_re.findall(r"self\._measures\.(\w+)\.blocks", text)) - {meas})
+        ok = True if want in text else (False if others else None)
+        ctx.ob("wiring.public", f"cubepart.py::{ci.name}.{prop}", text[:140], want, ok, f"assembles the blocks of {others}" if others and not ok else "")
+
     for prop, meas in pub.items():
-        e = expand(ctx.repo, sl, prop, stop=lambda m: True)
-        leaves = [u(l) for _g, l in strip_ifexp_paths(e)]
-        want = f"self._assemble_matrix(self._measures.{meas}.blocks)"
-        ok = any(want in l for l in leaves)
-        ctx.ob("wiring.public", f"cubepart.py::_Slice.{prop}", leaves[0][:120], want, ok)
+        wired(sl, prop, meas, "_assemble_matrix")
     st = ctx.repo.cls("cubepart.py", "_Strand")
     for prop, meas in pub.items():
-        e = expand(ctx.repo, st, prop, stop=lambda m: True)
-        leaves = [u(l) for _g, l in strip_ifexp_paths(e)]
-        want = f"self._assemble_vector(self._measures.{meas}.blocks)"
-        ok = any(want in l for l in leaves)
-        ctx.ob("wiring.public", f"cubepart.py::_Strand.{prop}", leaves[0][:120], want, ok)
+        wired(st, prop, meas, "_assemble_vector")
     nub = ctx.repo.cls("cubepart.py", "_Nub")
     e = expand(ctx.repo, nub, "unweighted_count", stop=lambda m: True)
     ctx.check_expr("wiring.public", "cubepart.py::_Nub.unweighted_count", e, "self._cube.unweighted_counts")
